@@ -187,6 +187,34 @@ func (e *Engine) header(st *symtab) string {
 	return sb.String()
 }
 
+// relevantAxioms: user axioms sharing an uninterpreted symbol with the given terms.
+func (e *Engine) relevantAxioms(vc *VC, terms []*Term) []*Term {
+	if len(vc.Axioms) == 0 {
+		return nil
+	}
+	used := &symtab{vars: map[string]*Sort{}, ufs: map[string]bool{}, structs: map[string]*Sort{}}
+	seen := map[*Term]bool{}
+	for _, t := range terms {
+		used.walk(e, t, seen, nil)
+	}
+	var out []*Term
+	for _, ax := range vc.Axioms {
+		st := &symtab{vars: map[string]*Sort{}, ufs: map[string]bool{}, structs: map[string]*Sort{}}
+		st.walk(e, ax, map[*Term]bool{}, nil)
+		// relevant iff every user-declared uninterpreted symbol of the axiom occurs in the query
+		rel := true
+		for u := range st.ufs {
+			if sf, ok := e.SpecFuncs[u]; ok && sf.Body == nil && !used.ufs[u] {
+				rel = false
+			}
+		}
+		if rel {
+			out = append(out, ax)
+		}
+	}
+	return out
+}
+
 func (e *Engine) script(vc *VC, o *Obligation, extra []*Term, getValues []*Term) string {
 	var terms []*Term
 	terms = append(terms, vc.Assumes[:o.NAssume]...)
@@ -197,6 +225,7 @@ func (e *Engine) script(vc *VC, o *Obligation, extra []*Term, getValues []*Term)
 		terms = vc.Assumes[:vc.PreN]
 		terms = append(append([]*Term{}, terms...), extra...)
 	}
+	terms = append(e.relevantAxioms(vc, append(append([]*Term{}, terms...), goal)), terms...)
 	st := &symtab{vars: map[string]*Sort{}, ufs: map[string]bool{}, structs: map[string]*Sort{}}
 	seen := map[*Term]bool{}
 	for _, t := range terms {
@@ -242,9 +271,23 @@ func (e *Engine) batchScript(vc *VC, obls []*Obligation, timeoutMs int) string {
 	for _, t := range vc.Assumes[:maxN] {
 		st.walk(e, t, seen, nil)
 	}
+	var allT []*Term
+	allT = append(allT, vc.Assumes[:maxN]...)
+	for _, o := range obls {
+		allT = append(allT, o.Goal)
+	}
+	axs := e.relevantAxioms(vc, allT)
+	for _, t := range axs {
+		st.walk(e, t, seen, nil)
+	}
 	var sb strings.Builder
 	sb.WriteString(e.header(st))
 	fmt.Fprintf(&sb, "(set-option :timeout %d)\n", timeoutMs)
+	for _, t := range axs {
+		sb.WriteString("(assert ")
+		t.write(&sb, nil)
+		sb.WriteString(")\n")
+	}
 	next := 0
 	for _, o := range obls {
 		for ; next < o.NAssume; next++ {
@@ -276,6 +319,18 @@ func runSolverCtx(parent context.Context, solver, file string, timeoutS int) (st
 	ctx, cancel := context.WithTimeout(parent, time.Duration(timeoutS+2)*time.Second)
 	defer cancel()
 	switch solver {
+	case "z3-new-inc":
+		// same query through z3's incremental core (what the batch phase uses): a (push) before the goal
+		inc := file + ".inc.smt2"
+		if b, err := os.ReadFile(file); err == nil {
+			txt := string(b)
+			if k := strings.LastIndex(txt, "(assert "); k >= 0 {
+				txt = txt[:k] + "(push 1)\n" + txt[k:]
+			}
+			os.WriteFile(inc, []byte(txt), 0o644)
+			defer os.Remove(inc)
+		}
+		cmd = exec.CommandContext(ctx, "z3-new", fmt.Sprintf("-T:%d", timeoutS), inc)
 	case "z3-new":
 		cmd = exec.CommandContext(ctx, "z3-new", fmt.Sprintf("-T:%d", timeoutS), file)
 	case "z3":
@@ -310,7 +365,7 @@ func (e *Engine) Solve(jobs []solveJob, cfg SolverCfg) {
 		cfg.Workers = 16
 	}
 	if len(cfg.Solvers) == 0 {
-		cfg.Solvers = []string{"z3-new", "z3", "cvc5"}
+		cfg.Solvers = []string{"z3-new-inc", "z3-new", "cvc5", "z3"}
 	}
 	os.MkdirAll(cfg.TmpDir, 0o755)
 	ch := make(chan solveJob)
@@ -456,10 +511,10 @@ func (e *Engine) Solve(jobs []solveJob, cfg SolverCfg) {
 					gseq++
 					id := gseq
 					mu.Unlock()
-					text := e.batchScript(g.vc, g.obls, 3000)
+					text := e.batchScript(g.vc, g.obls, 8000)
 					file := filepath.Join(cfg.TmpDir, fmt.Sprintf("batch%05d.smt2", id))
 					os.WriteFile(file, []byte(text), 0o644)
-					ctx, cancel := context.WithTimeout(context.Background(), time.Duration(20+len(g.obls)/4)*time.Second)
+					ctx, cancel := context.WithTimeout(context.Background(), time.Duration(40+len(g.obls)/2)*time.Second)
 					cmd := exec.CommandContext(ctx, "z3-new", file)
 					var out bytes.Buffer
 					cmd.Stdout = &out
